@@ -1,7 +1,7 @@
 (* C25 — Filer HTTP writes store exactly the request body.
    Only statements closed by [exact]; proofs live in proof/FilerWriteProofs.v.
 
-   The model (model/FilerWrite.v, the code after the four C25 repairs) is
+   The model (model/FilerWrite.v, the code after the five C25 repairs) is
    parametric in the chunk size, the inline limit, the body and the md5 function;
    every theorem below holds for all of them (so also for the 1 MiB multiples the
    real autoChunk produces).  [read_entry] is the reference reader (inline
@@ -94,10 +94,12 @@ Print Assumptions c25_nonsuccess_no_commit.
       [target fr st] is the entry under the resolved path, [slot_after fr st st']
       the same path in a later state, [other_after] the other of the two paths. *)
 
-(* handle_write_fs is handle_write on the resolved path whenever CreateEntry accepts (full) *)
+(* handle_write_fs is handle_write on the resolved path whenever neither saveMetaData
+   (?op=append onto a directory) nor CreateEntry refuses (full) *)
 Theorem c25_fs_refines : forall md5 fr st,
   let rq := fr_rq fr in
   let pre := node_entry (target fr st) in
+  append_onto_dir fr st = false ->
   (existing rq pre = None -> create_fails fr st = false) ->
   let r := handle_write_fs md5 fr st in
   fo_status r = fst (handle_write md5 rq pre) /\
@@ -174,47 +176,57 @@ Theorem c25_fs_upload_failure_leaks : forall md5 fr st,
 Proof. exact fs_upload_failure_leaks. Qed.
 Print Assumptions c25_fs_upload_failure_leaks.
 
-(* an append to a file with inline content is refused, nothing committed (full) *)
+(* an append to an entry with inline content is refused, nothing committed (full) *)
 Theorem c25_fs_append_inline_refused : forall md5 fr st e0,
   let rq := fr_rq fr in
   rq_append rq = true -> node_entry (target fr st) = Some e0 -> e_content e0 <> [] ->
   let r := handle_write_fs md5 fr st in
-  fo_status r = Failed /\ fo_state r = st /\ fo_deleted r = [].
+  fo_status r = Failed /\ fo_state r = st /\
+  (is_dir (target fr st) = false -> fo_deleted r = []).
 Proof. exact fs_append_inline_refused. Qed.
 Print Assumptions c25_fs_append_inline_refused.
 
-(* KNOWN FINDING 0 (c25-append-onto-directory).  "Every 201 leaves a regular file
-   holding the bytes under the resolved path" is FALSE: ?op=append merges into
-   whatever FindEntry returns, a directory included (refuted) *)
-Theorem c25_created_is_file_refuted :
-  exists fr st,
-    rq_method (fr_rq fr) <> PostRaw /\ rq_end (fr_rq fr) = Eof /\ no_upfail (rq_upfail (fr_rq fr)) /\
-    trigger_append_dir fr st = true /\
-    fo_status (handle_write_fs (fun _ => 0%N) fr st) = Created /\
-    forall e, slot_after fr st (fo_state (handle_write_fs (fun _ => 0%N) fr st)) <> NFile e.
-Proof. exact created_is_file_refuted. Qed.
-Print Assumptions c25_created_is_file_refuted.
-
-(* outside the trigger (per request: op=append AND the resolved path holds a
-   directory) it is true (partial) *)
-Theorem c25_created_is_file_partial : forall md5 fr st,
-  trigger_append_dir fr st = false ->
+(* every 201 leaves a regular file under the resolved path (full; formerly refuted
+   by ?op=append onto a directory, finding c25-append-onto-directory, repaired) *)
+Theorem c25_created_is_file : forall md5 fr st,
   fo_status (handle_write_fs md5 fr st) = Created ->
   exists e, slot_after fr st (fo_state (handle_write_fs md5 fr st)) = NFile e.
-Proof. exact created_is_file_partial. Qed.
-Print Assumptions c25_created_is_file_partial.
+Proof. exact created_is_file. Qed.
+Print Assumptions c25_created_is_file.
 
-(* inside the trigger the answer is 201 and the new chunks hang on the directory entry (exact) *)
-Theorem c25_append_dir_exact : forall md5 fr st e0,
+(* no request, whatever its answer, changes a directory entry under either path (full) *)
+Theorem c25_fs_dir_untouched : forall md5 fr st,
+  let st' := fo_state (handle_write_fs md5 fr st) in
+  (is_dir (fs_a st) = true -> fs_a st' = fs_a st) /\
+  (is_dir (fs_b st) = true -> fs_b st' = fs_b st).
+Proof. exact fs_dir_untouched. Qed.
+Print Assumptions c25_fs_dir_untouched.
+
+(* ?op=append whose resolved path holds a directory: failed ("... is a directory",
+   500), nothing committed, exactly the uploaded chunks are handed to DeleteChunks,
+   none is left behind (full) *)
+Theorem c25_fs_append_dir_refused : forall md5 fr st,
   let rq := fr_rq fr in
   rq_method rq <> PostRaw -> ur_failed (upload_of rq) = false ->
-  rq_append rq = true -> target fr st = NDir e0 -> e_content e0 = [] ->
+  append_onto_dir fr st = true ->
   let r := handle_write_fs md5 fr st in
-  fo_status r = Created /\
-  exists e1, slot_after fr st (fo_state r) = NDir e1 /\
-             e_chunks e1 = e_chunks e0 ++ map (shift_chunk (entry_size e0)) (ur_chunks (upload_of rq)).
-Proof. exact append_dir_exact. Qed.
-Print Assumptions c25_append_dir_exact.
+  fo_status r = Failed /\ fo_state r = st /\
+  fo_deleted r = ur_chunks (loop_of rq) /\ fo_leaked r = [] /\ fo_replaced r = [].
+Proof. exact fs_append_dir_refused. Qed.
+Print Assumptions c25_fs_append_dir_refused.
+
+(* the witness of the former finding: POST /d?op=append (multipart, no file name)
+   onto the directory /d *)
+Example c25_example_append_dir_refused :
+  let fr := mk_fr (mk_rq PostForm true false 2 0 [1;2;3]%N Eof []) false false false in
+  let st := {| fs_a := NDir empty_dir; fs_b := NMissing |} in
+  rq_method (fr_rq fr) <> PostRaw /\ ur_failed (upload_of (fr_rq fr)) = false /\
+  append_onto_dir fr st = true /\
+  handle_write_fs (fun _ => 0%N) fr st =
+    {| fo_status := Failed; fo_state := st;
+       fo_deleted := [Ck 0 2 [1;2]; Ck 2 1 [3]]%N; fo_leaked := []; fo_replaced := [] |}.
+Proof. exact example_append_dir_refused. Qed.
+Print Assumptions c25_example_append_dir_refused.
 
 (* PUT /d onto a directory /d: the body lands under /d/d, /d stays a directory *)
 Example c25_example_redirect :
@@ -252,12 +264,12 @@ Example c25_example_leak :
 Proof. exact example_leak. Qed.
 Print Assumptions c25_example_leak.
 
-(* the partial theorem's hypothesis is satisfiable on an append reached through a redirect *)
+(* an append onto a file reached through a directory redirect is accepted *)
 Example c25_example_append_redirected :
   let fr := mk_fr (mk_rq Put true false 2 0 [9]%N Eof []) false true false in
   let st := {| fs_a := NDir empty_dir;
                fs_b := NFile {| e_size := 0; e_content := []; e_chunks := [Ck 0 3 [1;2;3]%N]; e_md5 := None |} |} in
-  trigger_append_dir fr st = false /\
+  append_onto_dir fr st = false /\
   handle_write_fs (fun _ => 0%N) fr st =
     {| fo_status := Created;
        fo_state := {| fs_a := NDir empty_dir;
